@@ -15,11 +15,14 @@ METRICS = {
             ("BRANCH", "CHECKED"), ("LINE", "CHECKED")],
     "C02": [("LINE",), ("BRANCH", "LINE"), ("LINE", "CHECKED"), ("BRANCH", "LINE", "CHECKED")],
     "C03": [("BRANCH",), ("BRANCH", "LINE"), ("BRANCH", "CHECKED"), ("BRANCH", "LINE", "CHECKED")],
+    "C05": [("BRANCH", "LINE"), ("BRANCH", "LINE", "CHECKED")],
 }
 CLAUSES = {
     "C01": {"InstrumentationSucceeds", "BehaviourPreserved"},
-    "C02": {"InstrumentationSucceeds", "ReportedLinesExact", "NoForeignLines"},
-    "C03": {"InstrumentationSucceeds", "BranchOutcomesExact", "PredicatesRegistered"},
+    "C02": {"InstrumentationSucceeds", "ReportedLinesExact", "NoForeignLines", "SuiteAnalysisKeepsLines",
+            "MergedLinesAreUnion"},
+    "C03": {"InstrumentationSucceeds", "BranchOutcomesExact", "PredicatesRegistered", "SuiteAnalysisKeepsOutcomes"},
+    "C05": {"InstrumentationSucceeds", "RecordingContinuesLines", "RecordingContinuesOutcomes", "EnabledRestored"},
 }
 
 
@@ -50,8 +53,10 @@ def run(ctx: Ctx, prop: str, only: set | None = None) -> int:
                 for gx, px in zip(g["per_x"], r["per_x"]):
                     evs.append({"ok": True, **static, "py_npreds": r["npreds"],
                                 "gt": _intern(gx["obs"], table), "py": _intern(px["obs"], table),
-                                "gt_lines": gx["lines"], "py_lines": px["lines"],
-                                "gt_out": gx["out"], "py_out": px["out"]})
+                                "gt_lines": gx["lines"], "py_lines": px["lines"], "gt_raised": gx["raised"],
+                                "gt_out": gx["out"], "py_out": px["out"], "enabled_after": px["enabled_after"],
+                                "py_lines_after": px["lines_after"], "py_out_after": px["out_after"],
+                                "merged_lines": px["merged_lines"]})
             jobs.append((name, m))
             traces.append({"ev": evs})
             ctx.nontriv(f"idiom:{name}:{'+'.join(m)}")
@@ -69,11 +74,16 @@ def run(ctx: Ctx, prop: str, only: set | None = None) -> int:
                 if clause == "BehaviourPreserved":
                     g, p = gt[name]["per_x"][max(step, 1) - 1]["obs"], per_metric[msets.index(m)][name]["per_x"][max(step, 1) - 1]["obs"]
                     detail = f"input {x}: uninstrumented {g} instrumented {p}"
-                elif clause in ("ReportedLinesExact", "NoForeignLines"):
+                elif clause == "EnabledRestored":
+                    detail = f"input {x}: the tracer is disabled after the execution"
+                elif clause in ("SuiteAnalysisKeepsLines", "MergedLinesAreUnion", "SuiteAnalysisKeepsOutcomes"):
+                    detail = (f"input {x}: reported before the suite-level analysis lines={e['py_lines']} out={e['py_out']}, "
+                              f"afterwards lines={e['py_lines_after']} out={e['py_out_after']}; merged lines={e['merged_lines']}")
+                elif clause in ("ReportedLinesExact", "NoForeignLines", "RecordingContinuesLines"):
                     a, b = set(e["gt_lines"]), set(e["py_lines"])
                     detail = (f"input {x}: executed but not reported {sorted(a - b)}, reported but not executed "
                               f"{sorted(b - a)} (line 0 = a line goal without line number)")
-                elif clause == "BranchOutcomesExact":
+                elif clause in ("BranchOutcomesExact", "RecordingContinuesOutcomes"):
                     detail = (f"input {x}: interpreter only {[o for o in e['gt_out'] if o not in e['py_out']]}, "
                               f"pynguin only {[o for o in e['py_out'] if o not in e['gt_out']]}")
                 else:
